@@ -25,7 +25,7 @@ from .hubutil import HarnessError
 
 WORKERS = int(os.environ.get("VERIF_WORKERS", "16"))
 MAX_SAFE = 2 ** 53 - 1
-PLAN = {"C15": {"quick": 640, "thorough": 16000}, "C07": {"quick": 640, "thorough": 16000}, "C16": {"quick": 1600, "thorough": 40000}}
+PLAN = {"C15": {"quick": 640, "thorough": 16000}, "C07": {"quick": 640, "thorough": 16000}, "C16": {"quick": 1600, "thorough": 80000}}
 DEFAULT_BUDGET = {"quick": 90.0, "thorough": 1500.0}
 
 
